@@ -1140,6 +1140,16 @@ const (
 	lineBreakVisible
 )
 
+// endsWithUnescapedBackslash reports whether s ends with a backslash that is not
+// itself escaped, i.e. with an odd number of backslashes.
+func endsWithUnescapedBackslash(s []byte) bool {
+	n := 0
+	for i := len(s) - 1; i >= 0 && s[i] == '\\'; i-- {
+		n++
+	}
+	return n%2 == 1
+}
+
 func (p *parser) parseBlock(block text.BlockReader, parent ast.Node, pc Context) {
 	if parent.IsRaw() {
 		return
@@ -1156,13 +1166,11 @@ func (p *parser) parseBlock(block text.BlockReader, parent ast.Node, pc Context)
 		lineLength := len(line)
 		var lineBreakFlags uint8
 		hasNewLine := line[lineLength-1] == '\n'
-		if ((lineLength >= 3 && line[lineLength-2] == '\\' &&
-			line[lineLength-3] != '\\') || (lineLength == 2 && line[lineLength-2] == '\\')) && hasNewLine { // ends with \\n
+		if hasNewLine && endsWithUnescapedBackslash(line[:lineLength-1]) { // ends with \\n
 			lineLength -= 2
 			lineBreakFlags |= lineBreakHard | lineBreakVisible
-		} else if ((lineLength >= 4 && line[lineLength-3] == '\\' && line[lineLength-2] == '\r' &&
-			line[lineLength-4] != '\\') || (lineLength == 3 && line[lineLength-3] == '\\' && line[lineLength-2] == '\r')) &&
-			hasNewLine { // ends with \\r\n
+		} else if hasNewLine && lineLength >= 2 && line[lineLength-2] == '\r' &&
+			endsWithUnescapedBackslash(line[:lineLength-2]) { // ends with \\r\n
 			lineLength -= 3
 			lineBreakFlags |= lineBreakHard | lineBreakVisible
 		} else if lineLength >= 3 && line[lineLength-3] == ' ' && line[lineLength-2] == ' ' &&
